@@ -80,7 +80,10 @@ func setup() {
 	seed := "AAECAwQFBgc"
 	mod := "example.com,zqmod.test,zq.example.org,zqsimple"
 	for _, c := range []h.Config{{}, {Tiny: true}, {Literals: true}, {Seed: seed}, {Literals: true, Tiny: true}, {Literals: true, Tiny: true, Seed: seed},
-		{GOGARBLE: mod}, {GOGARBLE: mod, Literals: true}, {ControlFlow: true}, {ControlFlow: true, Literals: true}, {ControlFlow: true, Seed: seed}} {
+		{GOGARBLE: mod}, {GOGARBLE: mod, Literals: true}, {ControlFlow: true}, {ControlFlow: true, Literals: true}, {ControlFlow: true, Seed: seed},
+		// C06's sibling pattern lists and C08's partial scopes (keep in step with checks/c06_test.go and checks/c08p_test.go)
+		{GOGARBLE: "zqsimple/alpha"}, {GOGARBLE: "zqsimple/alpha,zqsimple/alphabet"},
+		{GOGARBLE: "zqpart/secret,zqpart/cmd"}, {GOGARBLE: "zqpart/secret,zqpart/cmd", Literals: true}, {GOGARBLE: "zqpart/api,zqpart/cmd"}} {
 		jobs = append(jobs, job{c, h.LevelStd})
 	}
 	jobs = append(jobs, job{h.Config{}, h.LevelTest}, job{h.Config{Literals: true, Tiny: true, Seed: seed}, h.LevelTest}, job{h.Config{Seed: seed}, h.LevelTest})
